@@ -491,11 +491,26 @@ def plain_value(impl, v):
 def is_missing(v):
   return (not isinstance(v, (list, dict, Ins))) and (not D.is_sym(v)) and D.pg().MISSING_VALUE == v
 
-def ref_list_write(l, k, v, rebind):
-  """The single list write with the documented extensions: an insertion marker inserts, (rebind) an index past the end appends."""
+def path_cmp(p, r):
+  """The documented order of the paths of a rebind batch: key by key, integers by value, anything else by its text."""
+  for a, b in zip(p, r):
+    if isinstance(a, int) and isinstance(b, int):
+      if a != b: return -1 if a < b else 1
+    elif str(a) != str(b):
+      return -1 if str(a) < str(b) else 1
+  return (len(p) > len(r)) - (len(p) < len(r))
+
+def ref_list_write(l, k, v, rebind, touched=None):
+  """The single list write with the documented extensions: an insertion marker inserts, (rebind) an index past the end appends,
+  (rebind) MISSING_VALUE marks the element for removal at the next change notification."""
   if not isinstance(k, int) or isinstance(k, bool): raise Skip('non-integer list key')
-  if is_missing(v): raise Skip('MISSING_VALUE written into a list')
   n = len(l)
+  if is_missing(v):
+    if not rebind: raise Skip('MISSING_VALUE written into a list')
+    if k >= n: return
+    l[k] = v            # IndexError below -len, as for any assignment
+    if touched is not None: touched.append(l)
+    return
   if isinstance(v, Ins):
     if is_missing(v.v): raise Skip('MISSING_VALUE written into a list')
     l.insert(k, v.v)
@@ -509,7 +524,7 @@ def ref_dict_write(d, k, v):
   if is_missing(v): d.pop(k, None)         # documented: assigning MISSING_VALUE deletes the key
   else: d[k] = v
 
-def reference(x, op, vals):
+def reference(x, op, vals, notify=True):
   """Drives the plain list / dict x with op.  Returns (value of the call, is_new_container)."""
   P = D.pg()
   tag = op[0]
@@ -567,7 +582,9 @@ def reference(x, op, vals):
     pairs = [([D.dec_key(k) for k in p], v) for (p, _), v in zip(op[2], vals)]
     if not pairs: raise ValueError()
     if isinstance(x, list):
-      pairs.sort(key=lambda pv: P.KeyPath(pv[0]), reverse=True)      # documented: list updates are applied from the back
+      import functools
+      pairs.sort(key=functools.cmp_to_key(lambda a, b: path_cmp(a[0], b[0])), reverse=True)   # documented: list updates are applied from the back
+    touched = []
     for path, v in pairs:
       if not path: raise KeyError()
       c = x
@@ -583,9 +600,12 @@ def reference(x, op, vals):
       if isinstance(c, list):
         if not isinstance(path[-1], int): raise Skip('non-integer list key')
         if path[-1] < -len(c) and not isinstance(v, Ins): raise IndexError()
-        ref_list_write(c, path[-1], v, True)
+        ref_list_write(c, path[-1], v, True, touched)
       elif isinstance(c, dict): ref_dict_write(c, path[-1], v)
       else: raise Skip('rebind of a non-container')
+    if notify:           # the change notification at the end of a successful batch drops the marked elements
+      for c in touched:
+        c[:] = [e for e in c if not is_missing(e)]
     return None, False
   raise Skip('not a container operation')
 
@@ -602,6 +622,8 @@ def discriminator(op, before):
   tag = op[0]
   if tag in (LSETSLICE, LDELSLICE) and isinstance(before, list):
     return slice_shape(op[2:5], len(before))
+  if tag == D.REBIND and len(op[2]) >= 2:
+    return 'batch'
   if tag in (D.DUPDATE, D.DIOR, DOR, DROR) and any(k[0] == 0 and any(chr(c) in '.[]' for c in k[1:]) for k, _ in op[2]):
     return 'key-with-path-characters'
   return '-'
@@ -740,7 +762,7 @@ class Oracle:
     x = copy.copy(x0) if False else x0
     shown = repr(plain(x0))[:200]
     try:
-      ret_py, is_new = reference(x, op, before['vals'])
+      ret_py, is_new = reference(x, op, before['vals'], notify=D.eff(scope[2], True) is not False)
       out_py = None
     except Skip as s:
       self.stat('skipped:%s' % s); return
@@ -884,6 +906,49 @@ class Gen2(G.Gen):
       steps.append([sc, op, self.probes(impl, op)])
     return [3, list(self.quirks), init, steps]
 
+def rebind_sweep_cases(rng, per_len, quirks):
+  """Multi-path rebind on lists of 0..13 elements: batches of 2-4 paths mixing replacement, Insertion, MISSING_VALUE deletion,
+  appends past the end and writes into nested dicts, indices from {0,1,2,9,10,11,len-1,len,len+1,-1,-2,-len}; the list is a root,
+  a list inside a dict (target = the list), or reached from a dict target through a path ('a[10].x')."""
+  cases = []
+  for n in range(14):
+    for _ in range(per_len):
+      elems = [({'x': i} if rng.random() < 0.3 else i) for i in range(n)]
+      pool = sorted({0, 1, 2, 9, 10, 11, n - 1, n, n + 1, -1, -2, -n})
+      chosen = rng.sample(pool, rng.choice([2, 2, 3, 3, 4]))
+      layout = rng.choice(['root-list', 'root-list', 'list-in-dict', 'dict-target'])
+      pairs, used = [], set()
+      for j, i in enumerate(chosen):
+        at = i + n if -n <= i < 0 else i
+        e = elems[at] if 0 <= at < n else None
+        r = rng.random()
+        if isinstance(e, dict) and r < 0.4:
+          path, v = [i, 'x'], (D.V('MISSING') if rng.random() < 0.2 else D.V(50 + j))
+        elif r < 0.55: path, v = [i], D.INS(D.V(100 + j) if rng.random() < 0.7 else D.V({'x': 100 + j}))
+        elif r < 0.7: path, v = [i], D.V('MISSING')
+        elif r < 0.8: path, v = [i], D.V([100 + j])
+        else: path, v = [i], D.V(100 + j)
+        if path[0] in used: continue
+        used.add(path[0])
+        pairs.append([path, v])
+      if len(pairs) < 2: continue
+      if rng.random() < 0.5: rng.shuffle(pairs)
+      scope = D.sc(notify=[False]) if rng.random() < 0.12 else NS
+      if layout == 'root-list':
+        init, pos, pre = [elems], D.P(0), []
+      elif layout == 'list-in-dict':
+        init, pos, pre = [{'a': elems, 'b': 1}], D.P(0, 'a'), []
+      else:
+        init, pos, pre = [{'a': elems, 'b': 1}], D.P(0), ['a']
+      enc = [[[D.enc_key(k) for k in pre + path], v] for path, v in pairs]
+      probes = [list(range(-n - 4, n + 4)), [[[], [], [-1]], [[9], [], []], [[], [-2], [3]]], [[0, [2, 100]], [0, [2, 10]]],
+                [D.enc_key('a'), D.enc_key('b')]]
+      steps = [[scope, [D.REBIND, pos, enc], probes]]
+      if layout == 'dict-target':     # read the nested list back as well
+        steps.append([NS, [D.LAPPEND, D.P(0, 'a'), D.V(7)], probes])
+      cases.append(([3, list(quirks), [D.mk(x) for x in init], steps], layout))
+  return cases
+
 def default_probes(n=4):
   return [list(range(-n - 1, n + 1)), [[[], [], [-1]], [[1], [], [2]], [[], [-1], []]], [[0, [2, 1]], [1, 1, [[[1, 0], [0, [2, 1]]]]]],
           [D.enc_key('a'), D.enc_key('a.b'), D.enc_key(0)]]
@@ -909,6 +974,9 @@ CORPUS2 = {
                                 (NS, [LSETSLICE, D.P(1), OZ(0), OZ(1), OZ(None), [D.V(9)]]), (D.sc(aw=[True]), [LDELSLICE, D.P(1), OZ(0), OZ(1), OZ(None)])),
   'update-key-with-path-characters': case3([{'a': {'b': 0}}], (NS, [D.DUPDATE, D.P(0), KV({'a.b': 1})]), (NS, [D.DIOR, D.P(0), KV({'x[0]': [1], 'a': 2})]),
                                            (NS, [D.DSETDEFAULT, D.P(0), D.enc_key('k]'), D.V({'q': 1})])),
+  'rebind-batch-on-a-long-list': case3([list(range(12)), [0, 1, 2]],
+      (NS, [D.REBIND, D.P(0), [[[D.enc_key(2)], D.INS(D.V(100))], [[D.enc_key(10)], D.V(101)], [[D.enc_key(11)], D.V('MISSING')]]]),
+      (NS, [D.REBIND, D.P(1), [[[D.enc_key(-1)], D.INS(D.V(100))], [[D.enc_key(-2)], D.INS(D.V(101))], [[D.enc_key(5)], D.V(102)]]])),
   'dict-or': case3([{'a': 1, 'b': {'c': 2}}, {'z': [1]}], (NS, [DOR, D.P(0), KV({'b': 3, 'z': [1]})]), (NS, [DROR, D.P(0), KV({'z': {'y': 1}, 'a': 5})]),
                    (NS, [DOR, D.P(0), [[D.enc_key('r'), D.R(1)], [D.enc_key('s'), D.R(0, 'b')]]]), (D.sc(sealed=[True]), [DOR, D.P(0), KV({'q': 1})])),
 }
@@ -1154,6 +1222,14 @@ def run(ctx):
   for g, kind, w in gens:
     for _ in range(int(n * w)):
       cases_b.append(g.case(rng.choice([4, 8, 10, 12]))); kinds.append(kind)
+  rb_cases = rebind_sweep_cases(rng, ctx.scale(8, 120), quirks)
+  for c, layout in rb_cases:
+    cases_b.append(c); kinds.append('rebind-sweep')
+    ctx.hist('rebind_sweep_layout', layout)
+    ctx.hist('rebind_sweep_batch_size', len(c[3][0][1][2]))
+    ctx.hist('rebind_sweep_list_len', len(c[2][0][4]) if layout == 'root-list' else len(c[2][0][4][0][1][4]))
+  ctx.extra['rebind_sweep'] = dict(cases=len(rb_cases), what='multi-path rebind on lists of 0..13 elements: 2-4 paths of replace / Insertion / MISSING_VALUE / past-the-end / nested-dict writes, '
+                                   'indices from {0,1,2,9,10,11,len-1,len,len+1,-1,-2,-len}; list as root, inside a dict, or reached through a dict target')
   impl_b = []
   stats = {}
   for case, kind in zip(cases_b, kinds):
